@@ -112,6 +112,37 @@ topic can overwrite the pending bytes of another; the Go scenario
 supplies the interleaving. -/
 theorem assembler_per_stream : Gen.Mux.assemblerPerStream = true := by decide
 
+/-- GENERATED FACT: the identity `AddPeer` records for a connection (the `Sender` of every delivered message
+and the peer-set key) is `connection.Address.PublicKey`, the key the handshake authenticated, on every
+path. When false, the Go scenario `dial-attribution` (`C18:sender-not-authenticated-identity:<mode>`)
+supplies the connection on which messages are attributed to a key nobody proved. -/
+theorem attribution_is_authenticated_key : Gen.Mux.attributionIsAuthenticatedKey = true := by decide
+
+/-- **sender_is_authenticated**: whatever key was dialed or claimed, inbound or outbound, strict or not —
+if `AddPeer` registers the peer at all, the recorded identity is the key the handshake authenticated
+(the identity of C17's `auth`); a strict outbound dial whose dialed key differs is refused; and every
+entry of every topic's inbox log of that connection carries exactly that identity. -/
+theorem sender_is_authenticated (auth : Nat) (claimed : Option Nat) (outbound strict : Bool) :
+    (∀ k, recordedIdentity auth claimed outbound strict = some k → k = auth) ∧
+    (outbound = true → strict = true → claimed ≠ some auth → recordedIdentity auth claimed outbound strict = none) ∧
+    (∀ (r : Receiver) (t k : Nat), recordedIdentity auth claimed outbound strict = some k →
+      ∀ e ∈ r.tagged k t, e.sender = auth ∧ e.msg ∈ r.log.get t) := by
+  refine ⟨fun k h => ?_, fun ho hs hc => by simp [recordedIdentity, ho, hs, hc], fun r t k h e he => ?_⟩
+  · unfold recordedIdentity at h; split at h
+    · cases h
+    · exact (Option.some.inj h).symm
+  · have hk : k = auth := by
+      unfold recordedIdentity at h; split at h
+      · cases h
+      · exact (Option.some.inj h).symm
+    simp only [Receiver.tagged, List.mem_map] at he
+    obtain ⟨m, hm, rfl⟩ := he
+    exact ⟨hk, hm⟩
+
+/-- non-vacuity: a non-strict outbound dial with a WRONG key still records the authenticated key; a strict one is refused -/
+example : recordedIdentity 2 (some 9) true false = some 2 ∧ recordedIdentity 2 (some 9) true true = none ∧
+    recordedIdentity 2 none true false = some 2 ∧ recordedIdentity 2 (some 9) false false = some 2 := by decide
+
 /-- **delivery** (general form): for code that ends the connection on a partial enqueue, NO atomicity
 hypothesis is needed — for EVERY history, including enqueues that time out between packets at any
 point, the connection is never closed by the receiver's checks and for every topic the messages ever
@@ -142,6 +173,8 @@ theorem delivery (ops : List MuxOp) (hV : SendsValid Limits.code ops) (t : Nat) 
   have _atomic := enqueue_under_stream_mutex
   -- the independent per-topic assemblers of `Receiver` are what `assembler_per_stream` says of the code
   have _assemblers := assembler_per_stream
+  -- the sender tag of every inbox entry is the handshake-authenticated key (`sender_is_authenticated`)
+  have _sender := attribution_is_authenticated_key
   delivery_of_teardown Limits.code tears_down_on_partial ops hV t
 
 /-- a small instance of the limits for executable witnesses (2-byte packets, 6-byte messages) (`tearDownOnPartial = false`: the code before the repair) -/
